@@ -275,6 +275,32 @@ fn bit_tamper(c: &mut Ctx, enc: &Envelope) {
 /// C12 - inclusion proofs
 pub fn c12(c: &mut Ctx, b: &Budget) {
     let cfg = GenCfg::default();
+    // copies of an on-path element elsewhere in the envelope - compressed, encrypted, or present with the target's branch
+    // elided: they share the digest of an element on the path and must not show in the proof (repaired finding F5b)
+    for k in 0..(if b.thorough { 60 } else { 12 }) {
+        c.begin("digest-sharing-copy");
+        let p = gen_leaf(c, &cfg); let o = gen_env(c, &cfg, 1);
+        let target = if k % 2 == 0 { o.clone() } else { p.clone() };
+        let inner = c.assign(&format!("assertion {} {}", p, o));
+        // the on-path element: the assertion itself, or a wrapped node holding it
+        let onpath = if k % 3 == 0 { inner.clone() } else { let s = gen_leaf(c, &cfg); let n = c.assign(&format!("add {} {}", s, inner)); c.assign(&format!("wrap {}", n)) };
+        let copy = match k % 4 {
+            0 => c.assign(&format!("compress {}", onpath)),
+            1 => { let n = hex::encode(c.rng.bytes(12)); let w = c.assign(&format!("encrypt_subject {} {} {}", onpath, KEY1, n)); if c.env(&w).map(|x| x.is_encrypted()).unwrap_or(false) { w } else { c.assign(&format!("compress {}", onpath)) } }
+            2 => c.assign(&format!("elide_set {} rem elide {}", onpath, target)),       // present copy, target's branch elided
+            _ => { let ch = if k % 3 == 0 { p.clone() } else { inner.clone() }; c.assign(&format!("elide_set {} rem compress {}", onpath, ch)) }
+        };
+        // the copy as the subject, the original inside an assertion object (or as an assertion element when it can be one)
+        let e = if k % 3 == 0 && k % 2 == 0 { c.assign(&format!("add {} {}", copy, onpath)) } else { let q = gen_leaf(c, &cfg); let a = c.assign(&format!("assertion {} {}", q, onpath)); c.assign(&format!("add {} {}", copy, a)) };
+        if let Some(orig) = c.env(&e) {
+            observe(c, &e);
+            let all: HashSet<Digest> = elements(&orig).iter().map(|(_, x)| x.digest().into_owned()).collect();
+            let paths: Vec<String> = elements(&orig).iter().filter(|(_, x)| c.env(&target).map(|t| t.digest() == x.digest()).unwrap_or(false)).map(|(p, _)| p.clone()).collect();
+            c.count("branch:digest-sharing-copy");
+            c12_one(c, &cfg, &e, &orig, &all, &target, &paths);
+        }
+        c.end();
+    }
     for i in 0..b.scenarios {
         c.begin("proof");
         let mut e = gen_env(c, &cfg, 3);
@@ -328,7 +354,7 @@ pub(crate) fn c12_one(c: &mut Ctx, cfg: &GenCfg, e: &str, orig: &Envelope, all: 
                     }
                     // minimal disclosure
                     let m = check_minimal(&orig, &pr, &tset);
-                    let key = match &m { Err(x) if x.contains("obscured copy") => "proof-discloses-obscured-copy", _ => "proof-minimal" };
+                    let key = "proof-minimal";
                     c.check("proof-minimal", m.is_ok(), key, || format!("{}: targets {:?} proof {} of {}", m.unwrap_err(), paths, shape(&pr), shape(&orig)));
                     // mutated proof: elide one more on-path element; then some target must vanish or the proof is still valid - never a wrong accept
                     if let Some((pos, pp)) = gen_position(c, &p) {
